@@ -403,7 +403,7 @@ func runC11(c *Ctx) {
 		}
 	}
 	reentrantCloses(c, "C11")
-	c.Rep.Rule = "trees mixing Subscribe / SubscribeWithFilter / SubscribeForFilter / Clone / CloneWithFilter / CloneForFilter / monitors to depth 4 on a real controller in virtual time under perturbation; every kind of node as the one being closed; closing moment = every step index of a workload of server changes, Refilters and barriers (including before readiness); mechanisms {Close, 3 concurrent Close, context cancel, fatal list error}. Oracles at the next barrier: every node of the closed subtree has Done() closed and its Events() channel closed; no node outside it is done; the rest of the tree still delivers events and keeps its caches current; Error() is nil for a deliberate close and non-nil for a list error. Plus re-entrant closes: a monitor (on the controller / on a clone) closed from inside its own OnInitialize/OnCreate/OnUpdate/OnDelete callback: Close returns, its Done closes, siblings and publisher keep working, the controller's Close still cascades. Non-trivial = every scenario; distinct by (tree, victim, mechanism, step)."
+	c.Rep.Rule = "trees mixing Subscribe / SubscribeWithFilter / SubscribeForFilter / Clone / CloneWithFilter / CloneForFilter / monitors to depth 4 on a real controller in virtual time under perturbation; every kind of node as the one being closed; closing moment = every step index of a workload of server changes, Refilters and barriers (including before readiness); mechanisms {Close, 3 concurrent Close, context cancel, fatal list error}. Oracles at the next barrier: every node of the closed subtree has Done() closed and its Events() channel closed; no node outside it is done; the rest of the tree still delivers events and keeps its caches current; Error() is nil for a deliberate close and non-nil for a list error. Plus re-entrant closes: a monitor (on the controller / on a clone) closed from inside its own OnInitialize/OnCreate/OnUpdate/OnDelete callback: Close returns, its Done closes, siblings and publisher keep working, the controller's Close still cascades. Non-trivial = every scenario; distinct by (tree, victim, mechanism, step). Plus two controllers on ONE client.Client with both List calls in flight (held by the server), one of them closed / cancelled meanwhile, at the first list and at a relist: the other becomes (stays) ready, holds the server's content and goes on relisting. Every second fake server hands out an opaque collection resourceVersion (rv-<n>) and takes it back at Watch."
 }
 
 func runC12(c *Ctx) {
